@@ -11,7 +11,8 @@ RULE = ('windows built by construction: MACH_vmfault (END result zero / non-zero
         '(equal, adjacent) load addresses; PERF_Event with arbitrary 14-bit flag words and every subset/order of '
         '{THD_Data, STK_UHdr, STK_UData x k} (stack words include null frames), also the NONE-qualified (window-less) variant. Unrelated same-thread '
         'records and relevant-kind records of OTHER threads are mixed in; a third of the windows follow an unterminated START of the same '
-        'operation on the same thread with 1..3 relevant records behind it; sub-check two_dumps: one PyKdebugParser object lists a dump that ends '
+        'operation on the same thread with 1..3 relevant records behind it; a third of the windows reach the pairing object in portions (several '
+        'feed_generator calls / feed); sub-check two_dumps: one PyKdebugParser object lists a dump that ends '
         'inside such a window and then a dump that begins with the END: the second reads as on a fresh object. Oracle: fields of the emitted object '
         'against a plain reading of the statement. Non-trivial: >= 2 candidate records, a flag/record mismatch, or an '
         'undecoded nested kind; distinct by window digest.')
@@ -27,15 +28,20 @@ def words(seed, k):
     return list(S.expand_words(seed + 4096, k))
 
 
-def emit(evs, start_id_name):
+def emit(evs, start_id_name, delivery=None):
     real = EV.realize(evs)
     parser = EV.new_traces_parser()
     out = []
-    for e in real:
-        t = parser.feed(e)
+    for t in EV.deliver(parser, real, delivery):
         if t is not None and t.ktraces[0].tid == TID and t.ktraces[0].eventid == EV.eid(start_id_name):
             out.append(t)
     return out
+
+
+def portions(case, n):
+    """a third of the windows reach the parser in portions (cut points derived from the case seed)"""
+    s = case.get('seed', case.get('fseed', 0))
+    return None if s % 3 else [1 + (s >> 2) % max(n - 1, 1), (s >> 9) % (n + 1)]
 
 
 def filler(case):
@@ -71,7 +77,7 @@ def stale(case, start_name, mk):
 def prop_vmfault(ctx, case):
     pre = stale(case, 'MACH_vmfault', None)
     evs = build(case, 'MACH_vmfault')
-    out = guard(emit, pre + evs, 'MACH_vmfault')
+    out = guard(emit, pre + evs, 'MACH_vmfault', portions(case, len(pre + evs)))
     if len(out) != 1:
         raise Violation('trace-count', f'{len(out)} page-fault traces')
     t = out[0]
@@ -124,7 +130,7 @@ def prop_launch(ctx, case):
         w[2] = ADDR_POOL[ai % len(ADDR_POOL)] if ai < 100 else w[2]
         return EV.E(TID, code, 0, args=w)
     pre = stale(case, start, mk)
-    out = guard(emit, pre + evs, start)
+    out = guard(emit, pre + evs, start, portions(case, len(pre + evs)))
     if len(out) != 1:
         raise Violation('trace-count', f'{len(out)} launch traces')
     t = out[0]
@@ -168,7 +174,7 @@ def prop_sample(ctx, case):
             w[1] = nf % 14
         return EV.E(TID, code, 0, args=w)
     pre = [] if case['windowless'] else stale(case, 'PERF_Event', mks)
-    out = [t for t in guard(emit, pre + evs, 'PERF_Event')]
+    out = [t for t in guard(emit, pre + evs, 'PERF_Event', portions(case, len(pre + evs)))]
     if len(out) != 1:
         raise Violation('trace-count', f'{len(out)} sampler traces')
     t = out[0]
